@@ -47,6 +47,13 @@ pub fn dec_argv_bytes(a: &str) -> Vec<Vec<u8>> {
 
 pub mod wincut;
 
+/// The cfg(windows) thread-based communicator (communicate.rs `mod raw`), cut out of /repo's source by build.rs.
+#[allow(dead_code, unused_imports, clippy::all)]
+pub mod wincomm {
+    include!(concat!(env!("OUT_DIR"), "/wincomm.rs"));
+    include!(concat!(env!("OUT_DIR"), "/wincomm_ok.rs"));
+}
+
 pub fn dec_argv_u16(a: &str) -> Vec<Vec<u16>> {
     a.split(',').map(|w| dec_units(w).into_iter().map(|c| c as u16).collect()).collect()
 }
